@@ -28,6 +28,25 @@ def strip_comments(src):
     return "\n".join(l.split("--")[0] for l in src.splitlines())
 
 
+def import_closure(mods):
+    """paths of all project-local Lean files reachable through `import` from the given modules"""
+    seen, todo, out = set(), list(mods), []
+    while todo:
+        m = todo.pop()
+        if m in seen:
+            continue
+        seen.add(m)
+        path = os.path.join(LEAN, *m.split(".")) + ".lean"
+        if not os.path.exists(path):
+            continue
+        out.append(path)
+        for l in open(path):
+            mm = re.match(r"\s*(?:public\s+)?import\s+([\w.]+)", l)
+            if mm and (mm.group(1).startswith("Summer") or mm.group(1).startswith("Driver")):
+                todo.append(mm.group(1))
+    return sorted(out)
+
+
 class LeanStatus:
     def __init__(self):
         self.translate = {}
@@ -46,6 +65,11 @@ def prepare_lean(theorem_modules, tier, need_driver=True):
         st.translate = json.loads(out.strip().splitlines()[-1])
     except Exception:
         st.translate = {"error": out[-500:]}
+    rc, out = sh("python3 harness/translate/gen_arith.py", cwd=ROOT)
+    try:
+        st.translate.update({"arith:" + k: v for k, v in json.loads(out.strip().splitlines()[-1]).items()})
+    except Exception:
+        st.translate["arith"] = "untranslatable: " + out[-300:]
     if os.path.exists(os.path.join(HERE, "translate", "gen_skeleton.py")) and any(m.endswith("C19") for m in theorem_modules):
         rc, out = sh("python3 harness/translate/gen_skeleton.py --lean-root lean", cwd=ROOT)
         st.translate["skeleton"] = out.strip().splitlines()[-1] if out.strip() else "?"
@@ -82,14 +106,14 @@ def prepare_lean(theorem_modules, tier, need_driver=True):
         if rc != 0:
             info["log"] = out[-2000:]
         st.props[mod] = info
-    # forbidden tokens anywhere in the library (outside comments)
-    for dp, dn, fn in os.walk(os.path.join(LEAN, "Summer")):
-        for f in fn:
-            if f.endswith(".lean"):
-                src = strip_comments(open(os.path.join(dp, f)).read())
-                for i, line in enumerate(src.splitlines()):
-                    if FORBIDDEN.search(line):
-                        st.forbidden.append(f"{os.path.relpath(os.path.join(dp, f), LEAN)}:{i+1}: {line.strip()[:120]}")
+    # forbidden tokens anywhere in the library (outside comments): every file in the import closure of the library
+    # root `Summer.lean`, of the driver and of this property's theorem modules (files not imported by anything are
+    # not part of the library and are not looked at)
+    for path in import_closure(["Summer", "Driver.Main"] + list(theorem_modules)):
+        src = strip_comments(open(path).read())
+        for i, line in enumerate(src.splitlines()):
+            if FORBIDDEN.search(line):
+                st.forbidden.append(f"{os.path.relpath(path, LEAN)}:{i+1}: {line.strip()[:120]}")
     if tier == "thorough":
         mods = " ".join(theorem_modules)
         if mods:
@@ -257,7 +281,7 @@ def run_check(modname, argv):
             "checker_cmd": "cd lean && lake build " + " ".join(mod.THEOREM_FILES) + " && lake env lean <each Props file> (#print axioms)" + (" && lake env leanchecker ..." if tier == "thorough" else ""),
             "trusted_base": getattr(mod, "TRUSTED", []) + ["Lean 4.33 kernel; axioms allowed: propext, Classical.choice, Quot.sound",
                                                           "hand-written Lean model tied to the code by the correspondence below (differential testing)",
-                                                          "harness/jaxfix.py (NumPy-2/JAX compat layer)", "translator harness/translate/gen_tables.py"],
+                                                          "harness/jaxfix.py (NumPy-2/JAX compat layer)", "translators harness/translate/gen_tables.py (tables, tableau), gen_arith.py (solver / interpolation formulas), gen_skeleton.py (C19 control skeleton)"],
             "theorems": {m: i["theorems"] for m, i in lean.props.items()},
             "axioms": {m: i["axioms"] for m, i in lean.props.items()},
             "theorem_modules_ok": {m: i["ok"] for m, i in lean.props.items()},
